@@ -6,6 +6,7 @@ terminators, offsets into appended junk); liveness = a step budget on a virtual 
 from __future__ import annotations
 
 import glob
+import io
 import os
 import struct
 import zipfile
@@ -197,13 +198,61 @@ def _touches(faults, consumed, n):
     return ok and any_fault
 
 
-def run_case(kind, name, data, faults):
-    store = apply_faults(data, faults)
+def run_case(kind, name, data, faults, src=None):
+    store = store_for(src, data, faults) if src else apply_faults(data, faults)
     res = iosim.parse(kind, store)
     return res
 
 
+class _Archive:
+    def __init__(self, raw):
+        self.entries = []
+        with zipfile.ZipFile(io.BytesIO(raw)) as z:
+            for zi in z.infolist():
+                self.entries.append((zi, z.read(zi.filename)))
+
+    def names(self):
+        return [zi.filename for zi, _ in self.entries]
+
+    def get(self, name):
+        for zi, d in self.entries:
+            if zi.filename == name:
+                return d
+        raise KeyError(name)
+
+    def rebuild(self, name, data2):
+        out = io.BytesIO()
+        with zipfile.ZipFile(out, "w") as z:
+            for zi, data in self.entries:
+                z.writestr(zi, data2 if zi.filename == name else data, compress_type=zi.compress_type)
+        return out.getvalue()
+
+
+_ARCHIVES = {}
+
+
+def _archive(name):
+    if name not in _ARCHIVES:
+        for k, nme, d in corpus_files():
+            if (k, nme) == ("apk", name):
+                _ARCHIVES[name] = _Archive(d)
+                break
+        else:
+            raise HarnessError("corpus apk missing: " + name)
+    return _ARCHIVES[name]
+
+
+def store_for(src, data, faults):
+    """the bytes handed to the parser: faults applied to the file, or to one archive entry followed by a re-write"""
+    if src["kind"] == "apk-entry":
+        ar = _archive(src["name"])
+        return ar.rebuild(src["entry"], apply_faults(ar.get(src["entry"]), faults))
+    return apply_faults(data, faults)
+
+
 def _source_bytes(src):
+    if src["kind"] == "apk-entry":
+        return _archive(src["name"]).get(src["entry"])
     if src["kind"] == "corpus":
         for k, nme, d in corpus_files():
             if (k, nme) == (src["parser"], src["name"]):
@@ -232,7 +281,24 @@ def worker(seed):
     else:
         kind, name, data = r.choice(files)
         src = {"kind": "corpus", "parser": kind, "name": name}
-    p = pristine(kind, name + (":%x" % seed if name == "generated" else ""), data)
+        if kind == "apk" and r.random() < 0.6:
+            # storage fault inside an archive entry (manifest / resource table / dex), archive re-written:
+            # drives the binary-XML and resource parsers through the APK entry point
+            ar = _archive(name)
+            cand = [n for n in ar.names() if n in ("AndroidManifest.xml", "resources.arsc", "classes.dex")]
+            if cand:
+                entry = r.choice(cand)
+                src = {"kind": "apk-entry", "parser": "apk", "name": name, "entry": entry}
+    inner = None
+    if src["kind"] == "apk-entry":
+        # the read map comes from parsing the entry on its own with its own parser
+        ek = {"AndroidManifest.xml": "axml", "resources.arsc": "arsc", "classes.dex": "dex"}[src["entry"]]
+        inner = (ek, name + "!" + src["entry"], _archive(name).get(src["entry"]))
+    if inner:
+        p = pristine(inner[0], inner[1], inner[2])
+        data = inner[2]
+    else:
+        p = pristine(kind, name + (":%x" % seed if name == "generated" else ""), data)
     skipped = {}
     if p is None:
         return {"problems": [], "digest": core.digest_of([name, "pristine-not-ok"]), "probes": {}, "faults": {}, "units": 0,
@@ -248,8 +314,10 @@ def worker(seed):
     sample = None
     max_ratio = 0.0
     for ci in range(CASES_PER_RUN):
-        faults, kinds = draw_faults(fr, kind, data, p["readmap"])
-        res = run_case(kind, name, data, faults)
+        faults, kinds = draw_faults(fr, inner[0] if inner else kind, data, p["readmap"])
+        res = run_case(kind, name, data, faults, src)
+        if inner:
+            kinds = ["entry:" + k for k in kinds]
         units += res["steps"]
         for k in kinds:
             fired[k] = fired.get(k, 0) + 1
@@ -292,8 +360,8 @@ def digest_for_index(base, i):
     return out["digest"] + ":" + ",".join(sorted(s for s, _ in out["problems"]))
 
 
-def _sig_of(kind, data, faults):
-    res = iosim.parse(kind, apply_faults(data, faults))
+def _sig_of(kind, data, faults, src=None):
+    res = iosim.parse(kind, store_for(src, data, faults) if src else apply_faults(data, faults))
     if res["outcome"] == "loop":
         return f"C35:{kind}:{res['owner']}", res
     return None, res
@@ -308,7 +376,7 @@ def minimise(case, sig):
 
     def fails(sub):
         tests[0] += 1
-        return _sig_of(kind, data, sub)[0] == sig
+        return _sig_of(kind, data, sub, src)[0] == sig
 
     tail = [f for f in faults if f[0] == "adler"]
     body = [f for f in faults if f[0] != "adler"]
@@ -321,7 +389,7 @@ def write_replay(case, sig, msg, info):
     if "by_sig" in case:
         case = {"seed": case["seed"], "src": case["src"], "faults": case["by_sig"][sig], "sig": sig}
     data = _source_bytes(case["src"])
-    got, res = _sig_of(case["src"]["parser"], data, case["faults"])
+    got, res = _sig_of(case["src"]["parser"], data, case["faults"], case["src"])
     if got != sig:
         return None
     payload = {"property": PROP, "engine": "iosim", "seed": case["seed"], "config": {"budget": res["budget"]},
@@ -347,6 +415,6 @@ def run(tier):
 def replay(path):
     def rerun(rp):
         data = _source_bytes(rp["source"])
-        got, res = _sig_of(rp["source"]["parser"], data, rp["faults"])
+        got, res = _sig_of(rp["source"]["parser"], data, rp["faults"], rp["source"])
         return ({got} if got else set()), core.digest_of([got, res["where"]]), [f"outcome={res['outcome']} steps={res['steps']} owner={res['where']}"]
     return driver.replay_common(__import__("checks.c35", fromlist=["x"]), path, rerun)
